@@ -4,7 +4,7 @@
    (assemble_chains = Modify.modify for all hosts and fragments) is the substitution theorem, pending; the check
    decides Modify.modify_all against the library's output per input in extracted Coq. *)
 From Coq Require Import List Bool Arith Lia.
-From GV Require Import Base.Util Spec.Smiles Spec.Chem Spec.Iso Spec.Graft Spec.Modify Spec.Acyl Gen.Tables Proofs.AcylThm Model.PolyCarbon Proofs.PolyCarbonThm Proofs.PolyCarbonGen.
+From GV Require Import Base.Util Spec.Smiles Spec.Chem Spec.Iso Spec.Graft Spec.Modify Spec.Acyl Gen.Tables Proofs.AcylThm Model.PolyCarbon Proofs.PolyCarbonThm Proofs.PolyCarbonGen Proofs.PolyCarbonParse.
 Import ListNotations.
 Open Scope list_scope.
 
@@ -73,3 +73,24 @@ Theorem C04_assemble_saturated n :
   2 <= n -> assemble n 0 [] false None = acyl_text (mkAcyl false false n []).
 Proof. exact (assemble_saturated n). Qed.
 Print Assumptions C04_assemble_saturated.
+
+(* UNBOUNDED, the whole function: the model of SMILESReaktor.parse_poly_carbon, run on the name "6C<n>={...}" of an
+   unbranched chain of any length with any list of isolated double bonds (cis, trans, without geometry) that the
+   specification accepts, writes the text of the designation -- and so for every saturated chain "6C<n>".
+   (isolated_from 0: ascending, the first at C2 or later, two consecutive ones at least three apart.  Conjugated
+   double bonds and iso / anteiso chains are covered by the bounded theorem above.) *)
+Theorem C04_parse_poly_carbon_isolated n dbs :
+  dbs <> [] -> isolated_from 0 dbs -> acyl_ok (mkAcyl false false n dbs) = true ->
+  parse_poly_carbon (name_of (mkAcyl false false n dbs)) = acyl_text (mkAcyl false false n dbs).
+Proof. exact (parse_poly_carbon_isolated n dbs). Qed.
+Print Assumptions C04_parse_poly_carbon_isolated.
+
+Theorem C04_parse_poly_carbon_saturated n :
+  2 <= n -> parse_poly_carbon (name_of (mkAcyl false false n [])) = acyl_text (mkAcyl false false n []).
+Proof. exact (parse_poly_carbon_saturated n). Qed.
+Print Assumptions C04_parse_poly_carbon_saturated.
+
+Example C04_parse_poly_carbon_isolated_applies :
+  and (isolated_from 0 [(DbCis, 9); (DbCis, 12); (DbTrans, 15)])
+      (acyl_ok (mkAcyl false false 20 [(DbCis, 9); (DbCis, 12); (DbTrans, 15)]) = true).
+Proof. split; [cbn; lia | vm_compute; reflexivity]. Qed.
